@@ -78,6 +78,20 @@ STYLESHEET_USER_SNIPPETS = {
     'bdst': 'border-stroke:hairline|quirky',
     'mfoo': 'margin-foo:alpha|beta',
 }
+# a call with explicit function arguments / values followed by the same keyword with fewer or none:
+# shows snippet objects (keyword functions, argument lists) that were edited in place by the first call
+FOLLOW_UPS = {
+    'trf-s(2)': ['trf-s', 'trf-s(3)'], 'trf-t(17.25, 2, 33.75)': ['trf-t(9)', 'trf-t'], 'trf-r(45)': ['trf-r', 'trf-r(1)'],
+    'trf-sc3(1, 2, 3)': ['trf-sc3(9)', 'trf-sc3'], 'fna-sc(3)': ['fna-sc', 'fna'], 'fna-r(5)': ['fna-r'], 'gtx-r(3)': ['gtx-r', 'gtx'],
+    'animtf-cb(.2)': ['animtf-cb', 'animtf-cb(.5, .6)'], 'bgi-url(a.png)': ['bgi'], 'cola-#0': ['cola'], 'kdis-b': ['kdis', 'kdis-a'],
+    'cnt-attr(x)': ['cnt-attr', 'cnt'], 'gtc-r(2, 1fr)': ['gtc-r', 'gtc'],
+}
+SYNTAX_PROBES = {
+    'pug': ['!', '!!!', 'html:5', 'doc', '!!!+p'], 'xsl': ['tm', 'choose', 'xsl', '!!!', 'ap', 'wp[name=a select=b]>div', 'vare'],
+    'jsx': ['.a', '..a', 'label[for=x]', 'Foo.Bar', 'div.{x.y}'], 'vue': ['..a', '.a'], 'svelte': ['div.{x}', 'p[a={b}]'],
+    'xml': ['br', 'img', 'hr+br'], 'xhtml': ['br', 'img'], 'slim': ['br', 'input[disabled.]'], 'haml': ['br', 'p{a\nb}'], 'js': ['.a'],
+    'sass': ['m10', 'p5+m5'], 'stylus': ['m10', 'p5+m5'], 'scss': ['m10'], 'less': ['m10'], 'sss': ['m10'], 'css': ['m10'],
+}
 DEPENDENT_PROBES = ['bg:ov', 'bg-mul', 'bgmul', 'bd-q', 'bd:hair', 'm-al', 'm:beta', 'bg-scr+bd-q', 'bgov']
 STYLESHEET_POISON_SNIPPETS = {
     'pxa': "margin:'abc",
